@@ -198,6 +198,19 @@ func ErrNilEdges(call *ssa.Call) (edges map[[2]int]bool, tail bool, handled bool
 		case *ssa.Return:
 			tail = true
 			any = true
+		case *ssa.Store:
+			// result spilled into a local before rundefers: `*t0 = err; rundefers; t1 = *t0; return t1`
+			if a, ok := x.Addr.(*ssa.Alloc); ok && x.Val == ev {
+				b := x.Block()
+				if ret, ok := b.Instrs[len(b.Instrs)-1].(*ssa.Return); ok {
+					for _, rv := range ret.Results {
+						if u, ok := rv.(*ssa.UnOp); ok && u.X == ssa.Value(a) {
+							tail = true
+							any = true
+						}
+					}
+				}
+			}
 		}
 	}
 	if !any {
